@@ -12,7 +12,9 @@ Lemma c12_call_ok : call_ok c12_call.
 Proof.
   intros qual name vs cur r Hvs H. unfold c12_call in H.
   destruct (String.eqb name "idf" || String.eqb name "slowf")%bool; [|discriminate].
-  destruct vs as [|x [|y rest]]; try discriminate. inversion H; subst. cbn. inversion Hvs; assumption.
+  destruct vs as [|x [|y rest]]; try discriminate.
+  destruct (String.eqb qual "spin" || String.eqb qual "spinasync")%bool; inversion H; subst; cbn;
+    [exact I || reflexivity || constructor | inversion Hvs; assumption].
 Qed.
 
 Lemma no_call_ok : call_ok no_call.
